@@ -30,6 +30,129 @@ SHIM = '''
 // ---------------------------------------------------------------- shuttle shims (generated)
 pub mod vsync {
     pub use shuttle::sync::*;
+
+    /// shuttle re-exports std's Arc, whose reference counting has no scheduling point: code that
+    /// synchronises through Arc/Weak (upgrade vs. last drop) would be explored vacuously. This wrapper
+    /// yields to the scheduler before every reference-count operation.
+    pub struct Arc<T: ?Sized>(std::sync::Arc<T>);
+    pub struct Weak<T: ?Sized>(std::sync::Weak<T>);
+    impl<T> Arc<T> {
+        pub fn new(t: T) -> Self {
+            Arc(std::sync::Arc::new(t))
+        }
+        pub fn try_unwrap(this: Self) -> Result<T, Self> {
+            crate::vpoint::point();
+            let inner = unsafe { std::ptr::read(&this.0) };
+            std::mem::forget(this);
+            std::sync::Arc::try_unwrap(inner).map_err(Arc)
+        }
+        pub fn into_inner(this: Self) -> Option<T> {
+            crate::vpoint::point();
+            let inner = unsafe { std::ptr::read(&this.0) };
+            std::mem::forget(this);
+            std::sync::Arc::into_inner(inner)
+        }
+    }
+    impl<T: ?Sized> Arc<T> {
+        pub fn downgrade(this: &Self) -> Weak<T> {
+            crate::vpoint::point();
+            Weak(std::sync::Arc::downgrade(&this.0))
+        }
+        pub fn strong_count(this: &Self) -> usize {
+            crate::vpoint::point();
+            std::sync::Arc::strong_count(&this.0)
+        }
+        pub fn weak_count(this: &Self) -> usize {
+            crate::vpoint::point();
+            std::sync::Arc::weak_count(&this.0)
+        }
+        pub fn ptr_eq(a: &Self, b: &Self) -> bool {
+            std::sync::Arc::ptr_eq(&a.0, &b.0)
+        }
+        pub fn get_mut(this: &mut Self) -> Option<&mut T> {
+            crate::vpoint::point();
+            std::sync::Arc::get_mut(&mut this.0)
+        }
+        pub fn as_ptr(this: &Self) -> *const T {
+            std::sync::Arc::as_ptr(&this.0)
+        }
+    }
+    impl<T: Clone> Arc<T> {
+        pub fn make_mut(this: &mut Self) -> &mut T {
+            crate::vpoint::point();
+            std::sync::Arc::make_mut(&mut this.0)
+        }
+    }
+    impl<T: ?Sized> Clone for Arc<T> {
+        fn clone(&self) -> Self {
+            crate::vpoint::point();
+            Arc(self.0.clone())
+        }
+    }
+    impl<T: ?Sized> Drop for Arc<T> {
+        fn drop(&mut self) {
+            // the decrement itself happens when the field is dropped, right after this point
+            crate::vpoint::point();
+        }
+    }
+    impl<T: ?Sized> std::ops::Deref for Arc<T> {
+        type Target = T;
+        fn deref(&self) -> &T {
+            &self.0
+        }
+    }
+    impl<T: ?Sized> AsRef<T> for Arc<T> {
+        fn as_ref(&self) -> &T {
+            &self.0
+        }
+    }
+    impl<T: Default> Default for Arc<T> {
+        fn default() -> Self {
+            Arc::new(T::default())
+        }
+    }
+    impl<T> From<T> for Arc<T> {
+        fn from(t: T) -> Self {
+            Arc::new(t)
+        }
+    }
+    impl<T: ?Sized + std::fmt::Debug> std::fmt::Debug for Arc<T> {
+        fn fmt(&self, f: &mut std::fmt::Formatter<'_>) -> std::fmt::Result {
+            self.0.fmt(f)
+        }
+    }
+    impl<T: ?Sized + PartialEq> PartialEq for Arc<T> {
+        fn eq(&self, o: &Self) -> bool {
+            self.0 == o.0
+        }
+    }
+    impl<T> Weak<T> {
+        pub fn new() -> Self {
+            Weak(std::sync::Weak::new())
+        }
+    }
+    impl<T: ?Sized> Weak<T> {
+        pub fn upgrade(&self) -> Option<Arc<T>> {
+            crate::vpoint::point();
+            self.0.upgrade().map(Arc)
+        }
+        pub fn strong_count(&self) -> usize {
+            crate::vpoint::point();
+            self.0.strong_count()
+        }
+    }
+    impl<T: ?Sized> Clone for Weak<T> {
+        fn clone(&self) -> Self {
+            crate::vpoint::point();
+            Weak(self.0.clone())
+        }
+    }
+    impl<T> Default for Weak<T> {
+        fn default() -> Self {
+            Weak::new()
+        }
+    }
+
     /// std::sync::LazyLock over shuttle's Lazy (a blocking Once: initialised at most once per
     /// execution, racers block until the initialiser returns) - the semantics of std's LazyLock.
     pub struct LazyLock<T: Sync + 'static>(shuttle::lazy_static::Lazy<T>);
@@ -50,8 +173,26 @@ pub mod vsync {
         }
     }
 }
+/// Scheduling point for operations shuttle does not intercept (reference counting). Only inside the
+/// body of an execution (the harness switches it on and off), never during runtime teardown.
+pub mod vpoint {
+    thread_local! {
+        static ON: std::cell::Cell<bool> = const { std::cell::Cell::new(false) };
+    }
+    pub fn enable(on: bool) {
+        ON.with(|c| c.set(on));
+    }
+    #[inline]
+    pub fn point() {
+        if ON.with(|c| c.get()) && !std::thread::panicking() {
+            shuttle::thread::sleep(std::time::Duration::ZERO); // a plain context switch
+        }
+    }
+}
 pub mod vthread {
     pub use shuttle::thread::*;
+    // environment query without a shuttle counterpart (a constant of the machine)
+    pub use std::thread::available_parallelism;
 }
 /// harness-side event log (plain std mutex: deliberately not a scheduling point)
 pub mod vtrace {
@@ -69,6 +210,46 @@ pub mod vtrace {
 }
 '''
 
+def split_std_groups(text):
+    """`use std::{a::{x, y}, sync::Mutex, thread};` -> one `use std::...;` per top-level item, so that the
+    textual re-targeting below also reaches grouped imports."""
+    out = []
+    i = 0
+    pat = re.compile(r"(pub(?:\([a-z]+\))?\s+)?use\s+std::\{")
+    while True:
+        m = pat.search(text, i)
+        if not m:
+            out.append(text[i:])
+            break
+        out.append(text[i:m.start()])
+        j = m.end()
+        depth = 1
+        items, cur = [], ""
+        while depth > 0:
+            c = text[j]
+            if c == "{":
+                depth += 1
+            elif c == "}":
+                depth -= 1
+                if depth == 0:
+                    break
+            if c == "," and depth == 1:
+                items.append(cur)
+                cur = ""
+            else:
+                cur += c
+            j += 1
+        items.append(cur)
+        k = text.index(";", j)
+        vis = m.group(1) or ""
+        for it in items:
+            it = " ".join(it.split())
+            if it:
+                out.append(f"{vis}use std::{it};\n")
+        i = k + 1
+    return "".join(out)
+
+
 n_sync = 0
 src = os.path.join(repo, "src")
 for root, dirs, files in os.walk(src):
@@ -78,8 +259,12 @@ for root, dirs, files in os.walk(src):
             continue
         s = open(os.path.join(root, f)).read()
         if f.endswith(".rs"):
+            s = split_std_groups(s)
             n_sync += s.count("std::sync::") + len(re.findall(r"std::thread\b", s))
+            s = re.sub(r"use\s+std::thread\s*;", "use crate::vthread as thread;", s)
+            s = re.sub(r"use\s+std::sync\s*;", "use crate::vsync as sync;", s)
             s = s.replace("std::sync::", "crate::vsync::")
+            s = re.sub(r"\bstd::sync\b(?!::)", "crate::vsync", s)
             # std::thread_local! -> shuttle's (per-shuttle-thread storage); std::thread -> shuttle threads
             s = s.replace("std::thread_local!", "shuttle::thread_local!")
             s = re.sub(r"(?<![\w:])thread_local!", "shuttle::thread_local!", s)
